@@ -529,6 +529,10 @@ func mkScenario(s scen) *mc.Scenario {
 			sys.MaxMachines = 1
 			sys.Keepalive = [3]time.Duration{50 * time.Millisecond, time.Minute, 10 * time.Second}
 			sess = exec.Start(exec.Bigmachine(sys), exec.Parallelism(s.p))
+			// the machine's supervisor and keepalive loop are not the scheduler's: stop them
+			// once the execution is over, or thousands of executions' worth of keepalive
+			// traffic starve the later executions of CPU
+			vsched.Cleanup(sys.Stop)
 		} else {
 			sess = exec.Start(exec.Local, exec.Parallelism(s.p))
 		}
